@@ -57,9 +57,11 @@ C(rl, el, ab) == [rl |-> rl, el |-> el, ab |-> ab]
 MCCfgs       == {C("single", "single", "none"), C("follow", "single", "none")}
 MCCfgsAll    == {C("single", "single", "none"), C("follow", "single", "none"), C("single", "follow", "none"), C("follow", "follow", "none")}
 \* autobind lists the model output package: with ("hand") and without ("model") a hand-written model type in it
-MCCfgsAB     == {C("follow", "single", "hand"), C("single", "follow", "model")}
+\* "exec": autobind lists the EXEC package (single-file generated.go) and the schema has a type named like a
+\* top-level identifier of generated.go (Config)
+MCCfgsAB     == {C("follow", "single", "hand"), C("single", "follow", "model"), C("single", "single", "exec")}
 MCCfgsC18    == MCCfgsAll \cup MCCfgsAB
-MCCfgsStep   == {C(rl, el, ab) : rl \in {"single", "follow"}, el \in {"single", "follow"}, ab \in {"none", "model", "hand"}}
+MCCfgsStep   == {C(rl, el, ab) : rl \in {"single", "follow"}, el \in {"single", "follow"}, ab \in {"none", "model", "hand", "exec"}}
 MCCfgsFollow == {C("follow", "single", "none")}
 MCNoDev      == {}
 MCDevWarn    == {"warnNesting"}
